@@ -70,6 +70,8 @@ optionally preceded by `100 Continue`; an error response (400/413/408) carries `
 and ends the trace; a closing 200 ends the trace. -/
 def cleanTrace : List Ev → Bool
   | [] => true
+  | [.unmodelled] => true           -- handed over to mime/multipart: no claim
+  | [.continue100, .unmodelled] => true
   | [.continue100] => true          -- interim response, then the peer vanished (raw EOF)
   | .continue100 :: .req s :: t => cleanTrace (.req s :: t)
   | .continue100 :: .resp st c :: t => cleanTrace (.resp st c :: t)
@@ -96,14 +98,16 @@ theorem serveLoop_clean (cfg : Cfg) (e : End) : ∀ (fuel : Nat) (first : Bool) 
         · split <;> simp [cleanTrace]
       · rename_i hd n _
         simp only
-        split
-        · -- body error
-          rename_i x _
-          cases hc : mayContinue hd <;> cases hx : errStatus x <;> simp [cleanTrace]
-          all_goals (try exact errStatus_clean x _ hx)
-        · rename_i hd' body tr rest _
+        cases hb : continueReadBody cfg e hd (List.drop n s) with
+        | err x =>
+          cases x <;> cases hc : mayContinue hd <;> simp [cleanTrace, errStatus]
+        | ok hd' body tr rest =>
           cases hc : mayContinue hd <;> cases hk : (cfg.disableKeepalive || hd'.connClose)
-          all_goals simp [cleanTrace, ih]
+          all_goals first
+            | (have h12 := Bool.or_eq_false_iff.mp hk
+               simp [cleanTrace, ih, h12.1, h12.2])
+            | (have h12 : cfg.disableKeepalive = true ∨ hd'.connClose = true := by simpa using hk
+               simp [cleanTrace, ih, h12])
 
 /-- C03 (reject is clean) / C01 (one response per request, in order) on the loop model, for every
 configuration, every inbound byte stream and both ways the stream can end. -/
